@@ -104,11 +104,11 @@ fn cases(tier: Tier) -> Vec<Case> {
     out
 }
 
-struct Materialised {
+pub struct Materialised {
     /// blocks 1..=n as delivered (invalid variant / re-parented where needed)
-    blocks: Vec<BlockView>,
+    pub blocks: Vec<BlockView>,
     /// ground truth: block i (0-based) itself valid
-    self_valid: Vec<bool>,
+    pub self_valid: Vec<bool>,
 }
 
 fn materialise(u: &mut TreeUniverse, case: &Case) -> Result<Materialised, String> {
@@ -756,9 +756,9 @@ struct SchedOutcome {
 }
 
 /// One controlled execution of `seq` under the schedule `prefix` (then the default policy).
-type CutMonitor<'a> = Option<&'a dyn Fn(&Node) -> Vec<(String, String)>>;
+pub type CutMonitor<'a> = Option<&'a dyn Fn(&Node) -> Vec<(String, String)>>;
 
-fn sched_exec(ctx: &Ctx, cons: &ckb_chain_spec::consensus::Consensus, m: &Materialised, pv: &[usize], seq: &[usize], prefix: &[usize], monitor: CutMonitor) -> Result<crate::sched::Execution<SchedOutcome>, String> {
+fn sched_exec(ctx: &Ctx, cons: &ckb_chain_spec::consensus::Consensus, m: &Materialised, pv: &[usize], pre: &[usize], seq: &[usize], prefix: &[usize], monitor: CutMonitor) -> Result<crate::sched::Execution<SchedOutcome>, String> {
     use crate::sched::*;
     let n = m.blocks.len();
     let genesis_hash = cons.genesis_hash();
@@ -785,7 +785,7 @@ fn sched_exec(ctx: &Ctx, cons: &ckb_chain_spec::consensus::Consensus, m: &Materi
     let genesis_td = td(&node);
     let by_hash: HashMap<packed::Byte32, usize> = m.blocks.iter().enumerate().map(|(i, b)| (b.hash(), i)).collect();
     // reference: fully valid set over everything delivered
-    let delivered: BTreeSet<usize> = seq.iter().cloned().collect();
+    let delivered: BTreeSet<usize> = seq.iter().chain(pre.iter()).cloned().collect();
     let in_v = |i: usize| -> bool {
         let mut cur = i + 1;
         loop {
@@ -811,6 +811,12 @@ fn sched_exec(ctx: &Ctx, cons: &ckb_chain_spec::consensus::Consensus, m: &Materi
     let w_star = v.iter().map(|i| depth_td(*i)).max().unwrap_or_else(|| genesis_td.clone());
 
     let mut out = SchedOutcome::default();
+    // the common prefix is delivered the ordinary way, before the scheduler takes over
+    for &i in pre {
+        node.process(&m.blocks[i]).map_err(|e| format!("prefix block refused: {e}"))?;
+    }
+    let pre_tip = node.shared.snapshot().tip_hash();
+    let pre_td = td(&node);
     let t_boot = std::time::Instant::now();
     let ctl = Controller::install();
     ctl.announce_deliveries(seq.len() as i64);
@@ -820,8 +826,8 @@ fn sched_exec(ctx: &Ctx, cons: &ckb_chain_spec::consensus::Consensus, m: &Materi
     let mut points: Vec<ChoicePoint> = vec![];
     let mut prev: Option<usize> = None;
     let mut diverged = None;
-    let mut prev_tip = genesis_hash.clone();
-    let mut prev_td = genesis_td.clone();
+    let mut prev_tip = pre_tip;
+    let mut prev_td = pre_td;
     let mut sites: Vec<(usize, &'static str, i64)> = vec![];
     let mut panicked = None;
     loop {
@@ -1022,30 +1028,48 @@ fn seq_of(case: &Case) -> Vec<usize> {
     seq
 }
 
-fn run_sched_case(ctx: &Ctx, u: &mut TreeUniverse, sc: &SchedCase, case_idx: u64, report: &mut Report, only_schedule: Option<Vec<usize>>, monitor: CutMonitor, only_prefix: Option<&str>) -> Result<(), String> {
+/// What is explored: blocks, their tree, which are delivered synchronously before the scheduler
+/// takes over (`pre`), which are queued for the controlled threads (`seq`).
+pub struct SchedSubject {
+    pub m: Materialised,
+    pub pv: Vec<usize>,
+    pub pre: Vec<usize>,
+    pub seq: Vec<usize>,
+    pub bound: usize,
+    /// goes into replay files (with the schedule) and messages
+    pub label: Value,
+    pub family: &'static str,
+}
+
+#[allow(clippy::too_many_arguments)]
+pub fn explore_subject(ctx: &Ctx, cons: &ckb_chain_spec::consensus::Consensus, sub: &SchedSubject, case_idx: u64, report: &mut Report, only_schedule: Option<Vec<usize>>, monitor: CutMonitor, only_prefix: Option<&str>) -> Result<(), String> {
     use crate::sched::*;
     let root_is_mine = ctx.mine(case_idx);
-    let m = materialise(u, &sc.case)?;
-    let seq = seq_of(&sc.case);
-    let cons = u.consensus.clone();
-    let pv = sc.case.pv.clone();
+    let fam = sub.family;
+    let (m, pv, pre, seq) = (&sub.m, &sub.pv, &sub.pre, &sub.seq);
+    let replay_of = |schedule: &[usize]| {
+        let mut l = sub.label.clone();
+        l["family"] = json!(fam);
+        l["schedule"] = json!(schedule);
+        l
+    };
     if let Some(schedule) = only_schedule {
         // replay: the recorded schedule twice, observations must be identical
-        let a = sched_exec(ctx, &cons, &m, &pv, &seq, &schedule, monitor)?;
-        let b = sched_exec(ctx, &cons, &m, &pv, &seq, &schedule, monitor)?;
+        let a = sched_exec(ctx, cons, m, pv, pre, seq, &schedule, monitor)?;
+        let b = sched_exec(ctx, cons, m, pv, pre, seq, &schedule, monitor)?;
         if a.outcome.sites_fp != b.outcome.sites_fp || a.outcome.end_fp != b.outcome.end_fp {
             return Err("replay of the recorded schedule is not deterministic".into());
         }
         report.traces += 2;
         report.evaluations += 1;
         for (k, what) in a.outcome.violations.iter().filter(|(k, _)| only_prefix.map(|p| k.starts_with(p)).unwrap_or(true)) {
-            report.violation(format!("S/{k}"), format!("{what} (replayed twice, identical observations)"), json!({"family": "S", "case": sc, "schedule": schedule}));
+            report.violation(format!("{fam}/{k}"), format!("{what} (replayed twice, identical observations)"), replay_of(&schedule));
         }
         return Ok(());
     }
-    let mut run = |prefix: &[usize]| sched_exec(ctx, &cons, &m, &pv, &seq, prefix, monitor);
+    let mut run = |prefix: &[usize]| sched_exec(ctx, cons, m, pv, pre, seq, prefix, monitor);
     let mut local = Report::new();
-    let case_fp = fp(&(&sc.case, sc.bound));
+    let case_fp = fp(&(sub.label.to_string(), sub.bound));
     let mut ends: BTreeSet<u64> = BTreeSet::new();
     let mut visit = |x: &Execution<SchedOutcome>, prefix: &[usize]| -> bool {
         // every shard runs the root schedule (its alternatives are what is sharded); it is counted
@@ -1064,24 +1088,32 @@ fn run_sched_case(ctx: &Ctx, u: &mut TreeUniverse, sc: &SchedCase, case_idx: u64
         }
         let schedule: Vec<usize> = x.points.iter().map(|p| p.chosen).collect();
         for (k, what) in x.outcome.violations.iter().filter(|(k, _)| only_prefix.map(|p| k.starts_with(p)).unwrap_or(true)) {
-            local.violation(format!("S/{k}"), format!("{what} (case {:?}, schedule of {} grants)", sc.case, schedule.len()), json!({"family": "S", "case": sc, "schedule": schedule}));
+            local.violation(format!("{fam}/{k}"), format!("{what} (case {}, schedule of {} grants)", sub.label, schedule.len()), replay_of(&schedule));
         }
         true
     };
-    let stats = explore(sc.bound, 200_000, &mut run, &mut visit, &|unit| ctx.mine(unit + case_idx))?;
+    let stats = explore(sub.bound, 200_000, &mut run, &mut visit, &|unit| ctx.mine(unit + case_idx))?;
     if root_is_mine {
         local.evaluations += 1;
         local.count("family_S_cases", 1);
-        local.sample(json!({"family": "S", "case": sc, "schedules_explored_by_this_shard": stats.schedules, "scheduling_points_in_the_longest_schedule": stats.max_points, "distinct_end_states": ends.len()}));
+        local.sample(json!({"family": fam, "case": sub.label, "schedules_explored_by_this_shard": stats.schedules, "scheduling_points_in_the_longest_schedule": stats.max_points, "distinct_end_states": ends.len()}));
     }
     local.count("family_S_schedules", stats.schedules - if root_is_mine { 0 } else { 1 });
     local.max_counter("max_family_S_points_per_schedule", stats.max_points as u64);
     local.max_counter("max_family_S_distinct_end_states_of_one_case", ends.len() as u64);
     if stats.capped {
-        local.cap_hit = Some(format!("family S: schedule cap reached for {:?}", sc.case));
+        local.cap_hit = Some(format!("family {fam}: schedule cap reached for {}", sub.label));
     }
     report.merge(local);
     Ok(())
+}
+
+#[allow(clippy::too_many_arguments)]
+fn run_sched_case(ctx: &Ctx, u: &mut TreeUniverse, sc: &SchedCase, case_idx: u64, report: &mut Report, only_schedule: Option<Vec<usize>>, monitor: CutMonitor, only_prefix: Option<&str>) -> Result<(), String> {
+    let m = materialise(u, &sc.case)?;
+    let cons = u.consensus.clone();
+    let sub = SchedSubject { m, pv: sc.case.pv.clone(), pre: vec![], seq: seq_of(&sc.case), bound: sc.bound, label: json!({"case": sc}), family: "S" };
+    explore_subject(ctx, &cons, &sub, case_idx, report, only_schedule, monitor, only_prefix)
 }
 
 pub fn run_sched(ctx: &Ctx, u: &mut TreeUniverse, report: &mut Report, monitor: CutMonitor, only_prefix: Option<&str>) {
